@@ -292,23 +292,27 @@ async def async_setup_entry(hass: HomeAssistant, config_entry: ConfigEntry) -> b
     await install_requirements(hass, config_entry, pyscript_folder)
     await load_scripts(hass, config_entry.data, global_ctx_only=global_ctx_only)
 
+    reload_lock = asyncio.Lock()
+
     async def reload_scripts_handler(call: ServiceCall) -> None:
         """Handle reload service calls."""
         _LOGGER.debug("reload: yaml, reloading scripts, and restarting")
 
         global_ctx_only = call.data.get("global_ctx", None) if call else None
 
-        if await update_yaml_config(hass, config_entry):
-            global_ctx_only = "*"
-        State.set_pyscript_config(config_entry.data)
+        # reloads that overlap (eg, the file watcher and a manual call) are run one after the other
+        async with reload_lock:
+            if await update_yaml_config(hass, config_entry):
+                global_ctx_only = "*"
+            State.set_pyscript_config(config_entry.data)
 
-        await State.get_service_params()
+            await State.get_service_params()
 
-        await install_requirements(hass, config_entry, pyscript_folder)
-        await load_scripts(hass, config_entry.data, global_ctx_only=global_ctx_only)
+            await install_requirements(hass, config_entry, pyscript_folder)
+            await load_scripts(hass, config_entry.data, global_ctx_only=global_ctx_only)
 
-        # also start the scripts and apps that were reloaded because they import the named module
-        start_global_contexts()
+            # also start the scripts and apps that were reloaded because they import the named module
+            start_global_contexts()
 
     hass.services.async_register(DOMAIN, SERVICE_RELOAD, reload_scripts_handler)
 
